@@ -452,6 +452,13 @@ def same_bits(py_floats, ref_hex):
     return True
 
 
+def shape_of(v):
+    """nesting structure of a driver result: lengths of the lists/tuples, leaves as 0"""
+    if isinstance(v, (list, tuple)):
+        return [shape_of(x) for x in v]
+    return 0
+
+
 def flat_hex(v):
     if isinstance(v, str):
         return [v]
@@ -573,6 +580,8 @@ def run_job(nd, job, ref):
         return {"at": -1, "what": f"result of {drv}", "python_raised": f"{type(e).__name__}: {str(e)[:200]}"}
     if not same_bits(flat(res), flat_hex(ref["result"])):
         return {"at": -1, "what": f"result of {drv}", "python": [float.hex(v) for v in flat(res)], "rust": [float.hex(unbits(h)) for h in flat_hex(ref["result"])]}
+    if shape_of(res) != shape_of(ref["result"]):
+        return {"at": -1, "what": f"result of {drv}: same numbers, different nesting (row lengths)", "python_shape": shape_of(res), "rust_shape": shape_of(ref["result"])}
     for i, (p, r) in enumerate(zip(seen.get("reprs", []), ref["reprs"])):
         if p != r:
             return {"at": i, "what": f"repr of callback register {i}", "python_repr": p, "rust_display": r}
